@@ -401,3 +401,30 @@ def r15_7(ctx):
     for op in OPCODE_SEMANTICS:
         if op not in seen:
             ctx.fail("reinterpret_expr %s" % op, detail="supported operation no longer handled", expected=OPCODE_SEMANTICS[op], found="no branch", fi=f)
+
+
+@rule("R15.8", min_instances=2, desc="B-spline product (used by the inf certificate for products/powers of states): coefficients are paired row by row; a coefficient MATRIX (vector-valued state) is indexed by rows, not linearly")
+def r15_8(ctx):
+    """`coeffs[list]` on a CasADi matrix is linear indexing: for a 5 x n coefficient matrix it picks entries of the first column
+    only, so s*s of a vector state certified its first component and left the others unconstrained."""
+    from ..model import nested_functions
+    P = ctx.prog
+    f = P.own_method("BSpline", "__mul__")
+    helpers = nested_functions(f)
+    prods = [st for st in walk_no_nested(f.node) if isinstance(st, ast.Assign) and ast.unparse(st.targets[0]) == "coeffs_product" and isinstance(st.value, ast.BinOp) and isinstance(st.value.op, ast.Mult)]
+    cas = [st for st in prods if any(isinstance(p_, ast.Try) and st in p_.body for p_ in ast.walk(f.node))]
+    ctx.check(len(cas) == 1, "BSpline.__mul__ multiplies the paired coefficients", detail="structure", expected="coeffs_product = <rows of self.coeffs> * <rows of other.coeffs>", found=str(len(cas)), fi=f)
+    for st in cas:
+        for side, owner in ((st.value.left, "self"), (st.value.right, "other")):
+            ok = False
+            sel = side
+            if isinstance(sel, ast.Call) and isinstance(sel.func, ast.Name) and sel.func.id in helpers and sel.args and ast.unparse(sel.args[0]) == "%s.coeffs" % owner:
+                h = helpers[sel.func.id]
+                rets = [r.value for r in walk_no_nested(h.node) if isinstance(r, ast.Return)]
+                for r in rets:
+                    branches = [r.body, r.orelse] if isinstance(r, ast.IfExp) else [r]
+                    ok = any(isinstance(b, ast.Subscript) and isinstance(b.slice, ast.Tuple) and len(b.slice.elts) == 2 and ast.unparse(b.slice.elts[1]) == ":" for b in branches)
+            elif isinstance(sel, ast.Subscript) and ast.unparse(sel.value) == "%s.coeffs" % owner:
+                ok = isinstance(sel.slice, ast.Tuple) and len(sel.slice.elts) == 2 and ast.unparse(sel.slice.elts[1]) == ":"
+            ctx.check(ok, "BSpline.__mul__ selects coefficient rows of %s" % owner, detail="linear indexing of a coefficient matrix: only the first component of a vector-valued state enters the product (the other components are not certified)",
+                      expected="%s.coeffs[idx, :]" % owner, found=ast.unparse(side), fi=f, node=st, sample={"operand": ast.unparse(side)})
